@@ -130,6 +130,12 @@ impl Proj {
             imp.retain(|x| !ins.contains(x));
             let mut oo = pick(t, 1, false);
             oo.retain(|x| !ins.contains(x) && !imp.contains(x));
+            if o.validations && t.chance(8) {
+                // generators like CMake repeat an input in the order-only list; it is the same edge twice
+                if let Some(d) = ins.first().or(imp.first()).cloned() {
+                    oo.insert(0, d);
+                }
+            }
             let pool = if !phony && o.pools && t.chance(45) {
                 if t.chance(o.undeclared_pool_pct) {
                     Some("nopool".to_string())
@@ -414,7 +420,27 @@ impl Proj {
             }
         }
         if split && !inc.is_empty() {
-            t += "include inc.ninja\n";
+            if has_subgen || st % 2 == 0 {
+                t += "include inc.ninja\n";
+            } else {
+                // the include sits in the middle of the main file: statements after it may produce what
+                // statements inside it consume
+                let marker = "\u{1}INCLUDE\u{1}";
+                let _ = marker;
+                let lines: Vec<&str> = t.split_inclusive('\n').collect();
+                // cut at a statement boundary (a line starting with `rule`, `build`, `c<digit>` or `#`) near the middle
+                let mut cut = lines.len();
+                for (i, l) in lines.iter().enumerate().skip(lines.len() / 2) {
+                    if l.starts_with("rule ") || l.starts_with("build ") || l.starts_with('#') || (l.starts_with('c') && l.contains(" = cmd")) {
+                        cut = i;
+                        break;
+                    }
+                }
+                let mut nt: String = lines[..cut].concat();
+                nt += "include inc.ninja\n";
+                nt += &lines[cut..].concat();
+                t = nt;
+            }
             files.insert("inc.ninja".into(), inc);
         }
         if !self.defaults.is_empty() {
